@@ -26,6 +26,7 @@
 #include <sys/time.h>
 #include <sys/wait.h>
 #include <sys/resource.h>
+#include <sys/prctl.h>
 
 #define VC_KEYMAX 16384
 #define VC_MAXSKIP 4096
@@ -225,6 +226,7 @@ static const char *vc_signame(int s) {
 /* worker() runs the whole exploration and returns 0; it must call vc_case() before each case. */
 static int vc_main(int argc, char **argv, int (*worker)(int, char **)) {
     setvbuf(stdout, NULL, _IOLBF, 0);
+    prctl(PR_SET_PDEATHSIG, SIGKILL);     /* never outlive the driver (a crashed driver must not leave harnesses behind) */
     vc_sh = mmap(NULL, sizeof *vc_sh, PROT_READ | PROT_WRITE, MAP_SHARED | MAP_ANONYMOUS, -1, 0);
     memset(vc_sh, 0, sizeof *vc_sh);
     int nargc = 0;
@@ -243,6 +245,7 @@ static int vc_main(int argc, char **argv, int (*worker)(int, char **)) {
         fflush(stdout);
         pid_t pid = fork();
         if (pid == 0) {
+            prctl(PR_SET_PDEATHSIG, SIGKILL);
             vc_wd_start();
             int rc = worker(argc, argv);
             vc_sh->in_case = 0;
